@@ -100,13 +100,13 @@ theorem step_one {n : Nat} {s s' : State} {op : Op} {r : Res} (hW : WInv s) (hG 
   | remap c addr bytes d =>
     obtain ⟨cx, hc, h1⟩ := step_remap h
     obtain ⟨hp, hne⟩ := hO.pid_of hc
-    obtain ⟨hs1, hm1⟩ := (remap_pres hW.phys h1).2 (hp ▸ hO.single) hM
+    obtain ⟨hs1, hm1⟩ := (remap_pres hW.phys hW.mw h1).2 (hp ▸ hO.single) hM
     obtain ⟨_, f, _⟩ := remap_ext hW.mw h1
     exact ⟨hO.of_frame f.ctxs f.npid (hp ▸ hs1) hne, hm1, f.npid⟩
   | dist c addr bytes ids =>
     obtain ⟨cx, bs, hc, h1⟩ := step_dist h
     obtain ⟨hp, hne⟩ := hO.pid_of hc
-    obtain ⟨hs1, hm1⟩ := (distribute_pres hW.phys h1).2 (hp ▸ hO.single) hM
+    obtain ⟨hs1, hm1⟩ := (distribute_pres hW.phys hW.mw h1).2 (hp ▸ hO.single) hM
     obtain ⟨_, f, _⟩ := distribute_ext hW.mw h1
     exact ⟨hO.of_frame f.ctxs f.npid (hp ▸ hs1) hne, hm1, f.npid⟩
   | mig c v g =>
